@@ -11396,7 +11396,10 @@ func ruleClearKeepsAliases(c *Ctx) {
 			case *ast.CallExpr:
 				if id, ok := y.Fun.(*ast.Ident); ok && id.Name == "clear" && len(y.Args) == 1 {
 					if _, isB := info.ObjectOf(id).(*types.Builtin); isB && rootObj(info, y.Args[0]) == recv {
-						wipes = FuncKey(fd.Obj)
+						// clear of a map empties it (the index of a Map item); clear of a slice zeroes its elements
+						if _, isSl := info.TypeOf(y.Args[0]).Underlying().(*types.Slice); isSl {
+							wipes = FuncKey(fd.Obj)
+						}
 					}
 				}
 			case *ast.AssignStmt:
